@@ -90,10 +90,14 @@ let () =
                     Model.l_stallreflimit = zi "stallreflimit" "-1"; Model.l_stalls = zi "stalls" "0" } in
         let o = Model.is_refinement_over (q_of_string (get a "ftol" "0")) (q_of_string (get a "otol" "0")) bv sv rv dv
             (zi "minir" "0") (get a "st" "0" = "1") (get a "si" "0" = "1") lim (zi "nfail" "0") in
-        Printf.printf "KERN %s ctypes=%s, rtypes=%s, max=%s bv=%s sv=%s rv=%s dv=%s over=%s pf=%s df=%s st=%s si=%s\n" tag
+        let best0 = match get a "best" "inf" with "inf" -> infty | t -> q_of_string t in
+        let ((mx, best), nf) = Model.check_progress bv sv rv dv best0 (q_of_string (get a "factor" "16")) (zi "nfail" "0") in
+        let best_s = if Model.qcompare best infty = Model.Lt then string_of_q (Model.qred best) else "inf" in
+        Printf.printf "KERN %s ctypes=%s, rtypes=%s, max=%s bv=%s sv=%s rv=%s dv=%s over=%s pf=%s df=%s st=%s si=%s mx=%s best=%s nf=%s\n" tag
           (implode (List.map char_of_rt ct0)) (implode (List.map char_of_rt rt0)) (b p.Model.maximize)
           (string_of_q bv) (string_of_q sv) (string_of_q rv) (string_of_q dv)
           (b o.Model.o_over) (b o.Model.o_pf) (b o.Model.o_df) (b o.Model.o_st) (b o.Model.o_si)
+          (string_of_q (Model.qred mx)) best_s (string_of_z nf)
       | "GATE" :: tag :: toks ->
         let p = getlp () in
         let a = kv toks in
